@@ -1136,7 +1136,11 @@ def gen_column(rng, stats):
             s = pd.Series([rng.randint(-50, 10 ** rng.randint(1, 12)) for _ in range(n)], dtype='int64')
     elif kind == 'float_int':
         s = pd.Series([np.nan if rng.random() < nan_p else float(rng.randint(-5, 10 ** rng.randint(1, 9))) for _ in range(n)], dtype='float64')
-        if rng.random() < 0.25:
+        if rng.random() < 0.12:
+            # a column whose present values are all zero (a falsy Series.any())
+            s = pd.Series([np.nan if rng.random() < nan_p else 0.0 for _ in range(n)], dtype='float64')
+            stats.hit('converter.float_int.all_zero')
+        elif rng.random() < 0.25:
             # whole numbers beyond the int64 range (20-digit identifiers read as floats): Python's int() is unbounded
             s.iloc[rng.randrange(n)] = rng.choice([1e20, 2.0 ** 63, -2.0 ** 64, 1e22, 12345678901234567168.0, 2.0 ** 53, -9.3e18])
             stats.hit('converter.float_int.beyond_int64')
